@@ -1,5 +1,68 @@
 """C14 - the unit registry stays well-formed under any registration history (spec/Registry.tla)."""
-from . import common, regcheck
+import json
+import os
+
+from . import common, export, regcheck
+
+
+def table_part(rep, bd, thorough):
+    """The shipped databases: exported registry judged by RegOps's predicates, build outcomes as a trace."""
+    from barril.units import Scalar, UnitDatabase
+
+    for which in ("default", "posc_nocat", "simple"):
+        table = os.path.join(bd, "table-%s.json" % which)
+        db, proj = export.export(which, table)
+        UnitDatabase.PushSingleton(db)
+        try:
+            events = []
+
+            def build(op, fn, **kw):
+                ev = dict(op=op, ok=False, valid=False, category="", unit="", qtype="", **kw)
+                try:
+                    s = fn()
+                    ev.update(ok=True, valid=bool(s.IsValid()), category=s.GetCategory(), unit=s.GetUnit(), qtype=s.GetQuantityType())
+                except Exception as e:  # noqa
+                    ev["exc"] = type(e).__name__
+                events.append(ev)
+
+            units_of = {}
+            for r in proj["rows"]:
+                units_of.setdefault(r["qt"], []).append(r["unit"])
+            for c in proj["cats"]:
+                build("BuildCat", lambda: Scalar(c["cat"]), c=c["cat"])
+                for u in units_of.get(c["qt"], []):
+                    build("BuildCatUnit", lambda: Scalar(c["cat"], None, u), c=c["cat"], u=u)
+            if which == "default":
+                for r in proj["rows"]:
+                    build("BuildUnit", lambda: Scalar(1.0, r["unit"]), u=r["unit"])
+            trace = os.path.join(bd, "trace-%s.ndjson" % which)
+            with open(trace, "w") as f:
+                for ev in events:
+                    f.write(json.dumps(ev) + "\n")
+            out = os.path.join(bd, "out-%s.json" % which)
+            r = common.run_tlc("MC_C14", "MC_C14.cfg", bd, env={"TABLE_FILE": table, "TRACE_FILE": trace, "OUT_FILE": out,
+                                                              "STRONG": "1"}, workers=1, tag="table-" + which, timeout=1800)
+            rep.add_tlc("shipped database '%s': registry judged by the Well_* predicates + %d build events" % (which, len(events)), r)
+            if r.distinct != len(events) + 1:
+                raise common.MachineryError("trace not consumed: %d states for %d events" % (r.distinct, len(events)))
+            g = json.load(open(out))
+            if not g["onetype"]:
+                rep.violation({"check": "shipped table: unit symbol in exactly one quantity type", "db": which}, {})
+            for qt in g["badbase"]:
+                rep.violation({"check": "shipped table: base unit is not first/identity", "db": which, "qt": qt}, {})
+            for c in g["badcats"]:
+                rep.violation({"check": "shipped table: category ill-formed", "db": which, "category": c}, {})
+            for u in g["baddefcat"]:
+                rep.violation({"check": "shipped table: default category of a unit does not resolve", "db": which, "unit": u}, {})
+            for v in r.tagged("VIOL"):
+                ev = v["ev"]
+                rep.violation({"check": ev["op"], "db": which, "c": ev.get("c"), "u": ev.get("u")},
+                              {k: ev.get(k) for k in ("ok", "valid", "category", "unit", "qtype", "exc")})
+            rep.count(evaluations=len(events) + g["nrows"] + g["ncats"], nontrivial=len(events), traces=1)
+            if events:
+                rep.sample(events[len(events) // 2])
+        finally:
+            UnitDatabase.PopSingleton()
 
 
 def main(tier):
@@ -17,6 +80,7 @@ def main(tier):
         regcheck.emit_and_replay(rep, bd, "all transitions to depth 2", 2, "c14", "small", stats=stats)
         regcheck.emit_and_replay(rep, bd, "systematic sample of the transitions at depth 3", 3, "c14", "small", every=12,
                                  offset=common.seed() % 12, stats=stats)
+    table_part(rep, bd, thorough)
     rep.count(evaluations=stats["replayed"], nontrivial=stats["replayed"], traces=stats["replayed"])
     rep.cov["replayed_by_last_op"] = stats["ops"]
     rep.cov["exhaustive"] = False
